@@ -462,8 +462,7 @@ def handle (d : DSt) (n : Nat) (line : String) : IO DSt := do
         if !d.tainted && viewSt mst != viewWorld after then
           d ← mismatch d n "delete-state" s!"impl={viewWorld after} model={viewSt mst}"
       match specDelete d.before k c found res d.created d.fileOf d.deps after thr with
-      -- F-C17j: tagged when the fault hit a dependent in a cascade (grouping only, nothing is suppressed here)
-      | some cl => d ← specfail d n (cl ++ (if c && thr.isSome && thr != some k then "+thrdep" else ""))
+      | some cl => d ← specfail d n cl
       | none => pure ()
       if found then
         let api := ((d.before.find k).map (·.api)).getD false
